@@ -10,7 +10,7 @@ use crate::model::ris;
 use crate::model::zl::l;
 use crate::props::c01::{spec, Spec};
 use crate::props::c03::{coords_of, point_of, Coords};
-use crate::real::{IdDigest, ScriptRng};
+use crate::real::{self, IdDigest, ScriptRng};
 use curve25519_dalek::constants::{BASEPOINT_ORDER, RISTRETTO_BASEPOINT_COMPRESSED, RISTRETTO_BASEPOINT_POINT};
 use curve25519_dalek::ristretto::{CompressedRistretto, RistrettoPoint};
 use curve25519_dalek::traits::{Identity, IsIdentity};
@@ -119,6 +119,16 @@ pub enum Op {
     Coset(usize), // replace the representative by P + T_{2k}
     Recompress,
     Select(usize), // conditional_select / conditional_assign against a pool element
+    GroupDouble,   // group::Group::double
+    NegOwned,      // Neg for RistrettoPoint (by value)
+    Sum(usize),    // Sum over [P, pool[i]] by reference and by value, and the owned operator variants
+    Zeroize,       // wiped point = identity, consistent in all coordinates, usable afterwards
+    Mul(usize),    // P * k, k * P, P *= k for a small scalar menu (applied to whatever representative was reached)
+}
+
+fn mul_menu() -> Vec<U> {
+    let lm = l();
+    vec![U::ZERO, U::ONE, U::from_u64(2), U::from_u64(8), lm.sub(&U::ONE), lm.add(&U::ONE).shr(1)]
 }
 
 #[derive(Clone, Debug, PartialEq, Eq, Hash)]
@@ -163,11 +173,16 @@ impl Model for Machine {
         if s.bad.is_some() || s.depth >= self.max_depth {
             return;
         }
-        out.extend([Op::Neg, Op::Double, Op::Recompress, Op::Coset(1), Op::Coset(2), Op::Coset(3)]);
+        out.extend([Op::Neg, Op::Double, Op::Recompress, Op::Coset(1), Op::Coset(2), Op::Coset(3), Op::GroupDouble, Op::NegOwned, Op::Zeroize]);
+        if s.depth <= 1 {
+            for k in 0..mul_menu().len() {
+                out.push(Op::Mul(k));
+            }
+        }
         for i in 0..self.pool.len() {
             out.extend([Op::Add(i), Op::Sub(i), Op::RSub(i)]);
             if s.depth == 0 {
-                out.extend([Op::AddAssign(i), Op::SubAssign(i), Op::Select(i)]);
+                out.extend([Op::AddAssign(i), Op::SubAssign(i), Op::Select(i), Op::Sum(i)]);
             }
         }
     }
@@ -193,7 +208,39 @@ impl Model for Machine {
                     (x, s.m.sub(&pool[i].pt))
                 }
                 Op::Neg => (-&p, s.m.neg()),
+                Op::NegOwned => (-p, s.m.neg()),
+                Op::Zeroize => {
+                    let mut z = p;
+                    zeroize::Zeroize::zeroize(&mut z);
+                    (z, ed::ID)
+                }
                 Op::Double => (&p + &p, s.m.dbl()),
+                Op::GroupDouble => (group::Group::double(&p), s.m.dbl()),
+                Op::Sum(i) => {
+                    let q = pool[i].real;
+                    let by_ref: RistrettoPoint = [p, q].iter().sum();
+                    let by_val: RistrettoPoint = vec![p, q].into_iter().sum();
+                    let owned = [p + q, p + &q, &p + q];
+                    let want = by_ref.compress();
+                    assert!(by_val.compress() == want && owned.iter().all(|x| x.compress() == want), "Sum / owned Add variants disagree");
+                    let dif = [p - q, p - &q, &p - q];
+                    let wd = (&p - &q).compress();
+                    assert!(dif.iter().all(|x| x.compress() == wd), "owned Sub variants disagree");
+                    (by_ref, s.m.add(&pool[i].pt))
+                }
+                Op::Mul(k) => {
+                    let x = mul_menu()[k];
+                    let rs = real::scalar(&x);
+                    let a1 = &p * &rs;
+                    let a2 = &rs * &p;
+                    let mut a3 = p;
+                    a3 *= &rs;
+                    let a4 = p * rs;
+                    let a5 = rs * p;
+                    let want = a1.compress();
+                    assert!([a2, a3, a4, a5].iter().all(|y| y.compress() == want), "RistrettoPoint * Scalar variants disagree");
+                    (a1, s.m.mul(&x))
+                }
                 Op::Coset(k) => {
                     let shifted = &hook::ristretto_inner(&p) + &curve25519_dalek::constants::EIGHT_TORSION[2 * k];
                     (hook::ristretto_from_inner(&shifted), s.m)
